@@ -224,7 +224,7 @@ class LogRoundTrip(NativeCase):
     def run_native(self, tier):
         import random
         rnd = random.Random(0)
-        optsets = [(), ('-size',), ('-storage',)] if tier == 'quick' else [(), ('-size',), ('-storage',), ('-length',), ('-partition',), ('-no-simplification',), ('-push0',)]
+        optsets = [(), ('-size',), ('-storage',), ('-push0',)] if tier == 'quick' else [(), ('-size',), ('-storage',), ('-length',), ('-partition',), ('-no-simplification',), ('-push0',)]
         n_t = 0
         for di, (ib, rb) in enumerate(DOCS):
             doc = docs.dumps(docs.document([corpus.tokens(b) for b in ib], [corpus.tokens(b) for b in rb]))
